@@ -9,22 +9,37 @@ import (
 )
 
 func createLockFile(name string, perm os.FileMode) (LockFile, bool, error) {
-	acquiredExisting := false
-	if _, err := os.Stat(name); err == nil {
-		acquiredExisting = true
-	}
-	verifYield("lock:stat", name)
-	f, err := os.OpenFile(name, os.O_RDWR|os.O_CREATE, perm)
-	if err != nil {
-		return nil, false, err
-	}
-	verifYield("lock:open", name)
-	if err := syscall.Flock(int(f.Fd()), syscall.LOCK_EX|syscall.LOCK_NB); err != nil {
-		if err == syscall.EWOULDBLOCK {
-			err = os.ErrExist
+	for {
+		acquiredExisting := false
+		if _, err := os.Stat(name); err == nil {
+			acquiredExisting = true
 		}
-		return nil, false, err
+		verifYield("lock:stat", name)
+		f, err := os.OpenFile(name, os.O_RDWR|os.O_CREATE, perm)
+		if err != nil {
+			return nil, false, err
+		}
+		verifYield("lock:open", name)
+		if err := syscall.Flock(int(f.Fd()), syscall.LOCK_EX|syscall.LOCK_NB); err != nil {
+			_ = f.Close()
+			if err == syscall.EWOULDBLOCK {
+				err = os.ErrExist
+			}
+			return nil, false, err
+		}
+		verifYield("lock:flock", name)
+		// The previous owner could have removed the lock file after it was opened here.
+		// The lock is valid only if the path still refers to the locked file.
+		locked, err := f.Stat()
+		if err != nil {
+			_ = f.Close()
+			return nil, false, err
+		}
+		current, err := os.Stat(name)
+		if err == nil && os.SameFile(locked, current) {
+			return &osLockFile{f, name}, acquiredExisting, nil
+		}
+		// Locked a file that is not linked at the path anymore, try again.
+		_ = f.Close()
 	}
-	verifYield("lock:flock", name)
-	return &osLockFile{f, name}, acquiredExisting, nil
 }
